@@ -23,9 +23,11 @@ const modPath = "x.io/test"
 
 var docForms = []string{"none", "line", "two-lines", "block", "detached", "with-tags", "block-multiline", "two-blocks-on-one-line", "block-then-line"}
 var kinds = []string{"type-ungrouped", "type-grouped", "field", "field-multi", "const-grouped", "const-ungrouped", "var-ungrouped",
-	"field-multiline-type", "type-grouped-multiline", "var-grouped-multiline-value", "type-ungrouped-multiline"}
+	"field-multiline-type", "type-grouped-multiline", "var-grouped-multiline-value", "type-ungrouped-multiline",
+	// declarations whose own line also holds a nested field list (parameters, inline struct fields, type parameters)
+	"field-func-type", "type-func-ungrouped", "type-generic-inline-struct", "field-inline-struct", "var-func-literal"}
 
-var fileForms = []string{"plain", "CRLF line endings", "licence header, build constraint and an import before the declarations", "a second file of the package has comments on the same line numbers"}
+var fileForms = []string{"plain", "CRLF line endings", "licence header, build constraint and an import before the declarations", "a second file of the package has comments on the same line numbers", "a //line directive after the package clause renames the file and renumbers the lines"}
 
 type Layout struct {
 	File  int   `json:"file_form,omitempty"`
@@ -99,6 +101,9 @@ func (l Layout) render(pkg string) (string, []expect) {
 		b.WriteString("// Copyright header of the file.\n// Second header line.\n\n//go:build !ignore\n\n// Package " + pkg + " has a package doc.\n")
 	}
 	b.WriteString("package " + pkg + "\n\n")
+	if l.File == 4 {
+		b.WriteString("//line grammar.y:100\n")
+	}
 	if l.File == 2 {
 		b.WriteString("import \"fmt\" // trailing comment of the import\n\n// doc of the import user\nvar _ = fmt.Sprint // trailing comment of the import user\n\n")
 	}
@@ -110,7 +115,7 @@ func (l Layout) render(pkg string) (string, []expect) {
 	case "var-grouped-multiline-value":
 		b.WriteString("var (\n")
 		indent = "\t"
-	case "field", "field-multi", "field-multiline-type":
+	case "field", "field-multi", "field-multiline-type", "field-func-type", "field-inline-struct":
 		b.WriteString("type S struct {\n")
 		indent = "\t"
 	case "const-grouped":
@@ -145,6 +150,16 @@ func (l Layout) render(pkg string) (string, []expect) {
 			b.WriteString("type " + name + " struct {\n\tX int\n}" + trail + "\n")
 		case "var-grouped-multiline-value":
 			b.WriteString("\t" + name + " = []int{\n\t\t1,\n\t}" + trail + "\n")
+		case "field-func-type":
+			b.WriteString("\t" + name + " func(err error, n int) error" + trail + "\n")
+		case "field-inline-struct":
+			b.WriteString("\t" + name + " struct{ X, Y int }" + trail + "\n")
+		case "type-func-ungrouped":
+			b.WriteString("type " + name + " func(code int) (ok bool, err error)" + trail + "\n")
+		case "type-generic-inline-struct":
+			b.WriteString("type " + name + "[T any, U comparable] struct{ V T }" + trail + "\n")
+		case "var-func-literal":
+			b.WriteString("var " + name + " = func(n int) int { return n }" + trail + "\n")
 		case "const-grouped":
 			b.WriteString("\t" + name + " = " + fmt.Sprint(i) + trail + "\n")
 		case "const-ungrouped":
@@ -157,7 +172,7 @@ func (l Layout) render(pkg string) (string, []expect) {
 	switch kind {
 	case "type-grouped", "const-grouped", "type-grouped-multiline", "var-grouped-multiline-value":
 		b.WriteString(")\n")
-	case "field", "field-multi", "field-multiline-type":
+	case "field", "field-multi", "field-multiline-type", "field-func-type", "field-inline-struct":
 		b.WriteString("}\n")
 	}
 	if l.File == 1 {
@@ -511,7 +526,7 @@ func replay(c *core.Ctx, raw json.RawMessage) {
 func init() {
 	core.Register(&core.Prop{
 		ID: "C12", Level: "model_checking", Run: run, Replay: replay,
-		Rule: "layouts: every assignment of (doc form in {none, line, two lines, block, detached, with tag lines, multi-line block with a tag line, two blocks on one line, block followed by a line comment} x trailing comment yes/no) to 3 (thorough: 4 for two kinds) consecutive declarations, for 11 declaration kinds (ungrouped/grouped types, struct fields, multi-name fields, grouped/ungrouped consts, vars, and multi-line declarations whose trailing comment sits on the closing line: fields of struct type, grouped/ungrouped struct types, grouped vars with multi-line values); one source file per layout loaded by the real loader, plus every layout of 2 declarations in 3 more file forms (CRLF line endings; licence header + build constraint + import before the declarations; a second file of the package with comments on the same line numbers); Doc/tags/Comment of every declared object vs the harness' own knowledge of what it wrote (asked twice, the first answer overwritten by the caller in between). Tag extraction: every single line <=5 (6) over an 8-symbol alphabet (also with custom markers), every pair of lines <=3. Non-trivial = layouts with at least one doc or trailing comment / inputs with at least one tag; states = distinct layout classes / (tags, other lines) counts",
+		Rule: "layouts: every assignment of (doc form in {none, line, two lines, block, detached, with tag lines, multi-line block with a tag line, two blocks on one line, block followed by a line comment} x trailing comment yes/no) to 3 (thorough: 4 for two kinds) consecutive declarations, for 16 declaration kinds (ungrouped/grouped types, struct fields, multi-name fields, grouped/ungrouped consts, vars, and multi-line declarations whose trailing comment sits on the closing line: fields of struct type, grouped/ungrouped struct types, grouped vars with multi-line values; and declarations whose own line holds a nested field list: func-typed and inline-struct fields, func types, generic inline structs, vars with func literals); one source file per layout loaded by the real loader, plus every layout of 2 declarations in 4 more file forms (a //line directive renaming the file; CRLF line endings; licence header + build constraint + import before the declarations; a second file of the package with comments on the same line numbers); Doc/tags/Comment of every declared object vs the harness' own knowledge of what it wrote (asked twice, the first answer overwritten by the caller in between). Tag extraction: every single line <=5 (6) over an 8-symbol alphabet (also with custom markers), every pair of lines <=3. Non-trivial = layouts with at least one doc or trailing comment / inputs with at least one tag; states = distinct layout classes / (tags, other lines) counts",
 		Assumptions: []string{
 			"doc lines starting with 'go:' or with leading/trailing blanks are outside the alphabet",
 			"other (non-tag) lines are compared modulo surrounding spaces",
